@@ -26,7 +26,7 @@ def _scalar_lookup(b, t):
     return not k.startswith("adt:") or bool(ty.get("dual")) or bool(ty.get("f64"))
 
 
-def signature(b, F=None, depth=0, members=frozenset()):
+def _sequence(b, F=None, depth=0, members=frozenset()):
     """sequence of callee names, float-typed MIR operators and float constants (integer arithmetic, conversions,
     iterator plumbing and error plumbing are left out).  Calls of small private helpers of the same crate are replaced by
     the helper's own signature, so that extracting a repeated sub-expression into a helper in one clone only keeps the
@@ -51,12 +51,12 @@ def signature(b, F=None, depth=0, members=frozenset()):
         t = blk["term"]
         if t["k"] == "call" and not t.get("exp"):
             n = callee(t)[2]
-            if n in ("index", "index_mut") and not _scalar_lookup(b, t):
+            if n in PLUMBING:
                 continue
             cb = F.callee_body(t) if F is not None and depth < 2 else None
             if cb is not None and not cb.is_closure() and cb.get("vis") != "Public" and len(cb.blocks) <= 12 \
                     and cb.path.split("::")[0] == b.path.split("::")[0] and cb.path not in members and cb.path != b.path:
-                out.extend(signature(cb, F, depth + 1, members))
+                out.extend(_sequence(cb, F, depth + 1, members))
                 continue
             if n and n not in IGN:
                 out.append(n)
@@ -64,6 +64,25 @@ def signature(b, F=None, depth=0, members=frozenset()):
                     if a.get("f") is not None:
                         out.append("c:%s" % a["f"])
     return tuple(out)
+
+
+PLUMBING = {"index", "index_mut", "map", "collect", "iter", "iter_mut", "into_iter", "zip", "enumerate", "for_each", "rev", "len", "push",
+            "with_capacity", "from_vec", "to_vec", "next", "cloned", "copied", "get", "new", "from_iter", "components", "from_shape_fn",
+            "range", "skip", "take", "outer_iter", "call", "call_mut", "call_once", "raw_dim", "dim", "shape", "nrows", "ncols", "is_empty"}
+
+
+def signature(b, F=None, depth=0, members=frozenset()):
+    """multiset (sorted (item, count) pairs) of the arithmetic of a function: its own body, the closures written inside it
+    (unless a closure is itself a member of a clone group) and the small private helpers it calls.  Order, the division into
+    closures / helpers, array addressing and iterator plumbing are not part of it: `(0..n).map(|i| f(p[i])).collect()[0]`
+    and `f(p[0])` carry the same arithmetic."""
+    from collections import Counter
+    items = list(_sequence(b, F, depth, members))
+    if F is not None:
+        for c in F.bodies:
+            if c.is_closure() and c.path.startswith(b.path + "::{closure#") and c.path not in members:
+                items += list(_sequence(c, F, depth, members))
+    return tuple(sorted(Counter(items).items()))
 
 
 def run(F, want=None):
@@ -109,21 +128,32 @@ def run(F, want=None):
             sigs = {}
             for suf, b, s in members:
                 sigs.setdefault(s, []).append((suf, b))
-        if len(sigs) == 1:
+        if len(sigs) == 1 and not g.get("diff"):
             r.inst(iid, members[0][1].file_line(), "ok", members=len(members), calls=len(members[0][2]))
+            continue
+        if g.get("diff") is not None and len(members) == 2:
+            # siblings that are clones up to a reviewed difference (a unit conversion spelled differently, another map type):
+            # the difference between the two multisets must stay exactly the reviewed one
+            d0, d1 = dict(members[0][2]), dict(members[1][2])
+            now = sorted("%s:%+d" % (k_, d0.get(k_, 0) - d1.get(k_, 0)) for k_ in set(d0) | set(d1) if d0.get(k_, 0) != d1.get(k_, 0))
+            if now == sorted(g["diff"]):
+                r.inst(iid, members[0][1].file_line(), "ok", members=2, reviewed_difference=now)
+            else:
+                r.inst(iid, members[0][1].file_line(), "violation", members=2)
+                r.fail("clones|%s|%s" % (g["name"], members[0][0]), members[0][1].file_line(),
+                       "clone group `%s`: the difference between %s and %s is now %s (reviewed: %s) — an edit was applied to one copy only" % (
+                           g["name"], members[0][0], members[1][0], now, sorted(g["diff"])))
             continue
         # the minority member is the deviant
         groups = sorted(sigs.items(), key=lambda kv: (len(kv[1]), kv[1][0][0]))
         odd_sig, odd = groups[0]
         ref_sig = groups[-1][0]
-        k = 0
-        while k < min(len(odd_sig), len(ref_sig)) and odd_sig[k] == ref_sig[k]:
-            k += 1
+        do, dr = dict(odd_sig), dict(ref_sig)
+        diff = ["%s x%d vs x%d" % (k_, do.get(k_, 0), dr.get(k_, 0)) for k_ in sorted(set(do) | set(dr)) if do.get(k_, 0) != dr.get(k_, 0)]
         r.inst(iid, odd[0][1].file_line(), "violation", members=len(members))
         r.fail("clones|%s|%s" % (g["name"], odd[0][0]), odd[0][1].file_line(),
-               "clone group `%s`: %s no longer has the same call sequence as its sibling(s) %s (first difference at call #%d: `%s` vs `%s`) — "
-               "an edit was applied to one copy only" % (g["name"], odd[0][0], [m[0] for m in groups[-1][1]], k,
-                                                        odd_sig[k] if k < len(odd_sig) else "<end>", ref_sig[k] if k < len(ref_sig) else "<end>"))
+               "clone group `%s`: %s no longer carries the same arithmetic as its sibling(s) %s (%s) — "
+               "an edit was applied to one copy only" % (g["name"], odd[0][0], [m[0] for m in groups[-1][1]], "; ".join(diff[:6])))
     if want is None:
         r.floor("clone groups with >= 2 members", n_groups, len(tab["group"]))
     r.exhaustive = True
